@@ -204,10 +204,14 @@ Underlying(en) == CASE en.w = "malformed" -> "invalid"
 \* the first failing check (what LoadAndVerify reports for the input: one result per input)
 WireClass(en) == IF en.w = "badsig" THEN "sig" ELSE Underlying(en)
 
+\* is the event with this key an event of the room that is backfilled?  (not: the twin room's events; an event of
+\* the history that carries another room's ID - the create event of another room, say, is valid all by itself)
+OfRoom(k) == InRoom(k) /\ sc.F[k] # "wrongroom"
+
 \* does the requester pass the PDU on?
 Acceptable(en) ==
     /\ Parsable(en)
-    /\ InRoom(KeyOfEn(en)) \/ Fault = "no_room_check"
+    /\ OfRoom(KeyOfEn(en)) \/ Fault = "no_room_check"
     /\ IF Fault = "keep_auth_failures" THEN TRUE
        ELSE IF Fault = "drop_sig_failures" THEN WireClass(en) = "ok"
        ELSE IF SigTolerance = "first" THEN WireClass(en) \in {"ok", "sig"}
@@ -381,7 +385,7 @@ Processed(j) == log[j].kind \notin {"pending", "error", "cancel"}
 Offered(j) == IF Processed(j) THEN {KeyOfEn(log[j].pdus[i]) : i \in {x \in DOMAIN log[j].pdus : Parsable(log[j].pdus[x])}} ELSE {}
 \* an event the requester is to pass on: of the room, and passing every check on receipt of a PDU - the signature
 \* check apart (the documented tolerance)
-Good(k) == InRoom(k) /\ cls[k] = "ok"
+Good(k) == OfRoom(k) /\ cls[k] = "ok"
 GoodOffered(j) == {k \in Offered(j) : Good(k)}
 CollectedBefore(j) == Cardinality(UNION {GoodOffered(i) : i \in 1..(j - 1)})
 Returned == Elems(out.events)
@@ -391,7 +395,7 @@ Returned == Elems(out.events)
 ReturnedSafe ==
     Done => \A k \in Returned :
                /\ \E j \in DOMAIN log : k \in Offered(j)
-               /\ InRoom(k)
+               /\ OfRoom(k)
                /\ cls[k] = "ok"
                /\ ~BadEvent(sc.F, k)
 
